@@ -20,6 +20,9 @@ import KafkaVerif.Model.Resolve
 import KafkaVerif.Model.GoVal
 import KafkaVerif.Gen.Schemas
 import KafkaVerif.Gen.DecoderCfg
+import KafkaVerif.Gen.RecordCfg
+import KafkaVerif.Model.CodecRecords
+import KafkaVerif.Spec.Crc
 import KafkaVerif.Spec.KafkaWire
 import KafkaVerif.Spec.KafkaSchemas
 import KafkaVerif.Spec.KafkaParse
@@ -31,6 +34,11 @@ def answer (model : String) (holds : Bool) : String :=
   s!"model={model} holds={if holds then 1 else 0}"
 
 def cfg : Cfg := Gen.decoderCfg
+
+/-- the frame decoder with the detailed record-set reader (C20 outcome classes); compressed batches are not
+generated: decompression fails -/
+def cfgR : Cfg :=
+  withRecords Gen.decoderCfg Gen.recordCfg (Crc.crc32 Crc.polyIEEE) (Crc.crc32 Crc.polyCastagnoli) (fun _ _ => none)
 
 mutual
 /-- `WriteTo` of a RecordSet without records fails with ErrNoRecord: the frame cannot be produced -/
@@ -258,18 +266,9 @@ def showRes {α} (f : α → String) : Res α → String
   | .panic => "panic"
   | .balloon => "balloon"
 
-/-- model of ReadRequest: header, then the body of the type selected by (key, version) — here the case's -/
+/-- model of ReadRequest (`Model.readRequest`, the function `frame_request_decode` is about) at the case's type -/
 def readRequest (c : Case) (stream : Bytes) : Res (Int × Bytes × Val) :=
-  (readInt 4 ⟨stream, 4⟩).bind fun size d =>
-    if size < 0 then (if cfg.bounded then .error else .panic)
-    else
-      let d : Dec := ⟨d.inp, size.toNat⟩
-      (readInt 2 d).bind fun _key d =>
-      (readInt 2 d).bind fun _ver d =>
-      (readInt 4 d).bind fun corr d =>
-      (decode cfg (.string false true) d).bind fun cid d =>
-      (readRequestBody cfg c.r.flexible c.r.ty d).bind fun v d =>
-        .ok (corr, (match cid with | .str s => s | _ => []), v) d
+  (KV.Codec.readRequest cfg c.r.flexible c.r.ty stream).bind fun x d => .ok (x.2.2.1, x.2.2.2.1, x.2.2.2.2) d
 
 /-- the reference resolved type: golden table when audited and certain, else the tree's -/
 def refTy (c : Case) : Ty × Bool :=
@@ -277,7 +276,34 @@ def refTy (c : Case) : Ty × Bool :=
   | some t => (t, true)
   | none => (c.r.ty, false)
 
-def step (line : String) : String :=
+
+mutual
+/-- the reference schema is FLAT where the tree nests a struct in a (non-array) field: the nested struct's fields are the
+reference's fields at that position (DescribeAcls request `Filter ACLFilter`) -/
+partial def spliceTo : Ty → Val → Val
+  | .struct _ gfs _ _, .struct vs tvs => .struct (spliceFields gfs vs) tvs
+  | .array _ _ t, .arr (some xs) => .arr (some (xs.map (spliceTo t)))
+  | _, v => v
+partial def spliceFields : List Ty → List Val → List Val
+  | g :: gs, (.struct ivs itv) :: vs =>
+    match g with
+    | .struct _ _ _ _ => spliceTo g (.struct ivs itv) :: spliceFields gs vs
+    | _ => spliceFields (g :: gs) (ivs ++ vs)
+  | g :: gs, v :: vs => spliceTo g v :: spliceFields gs vs
+  | _, vs => vs
+end
+
+/-- does the value nest a struct where the reference schema has a scalar / array field? -/
+partial def nestsWhereFlat : Ty → Val → Bool
+  | .struct _ gfs _ _, .struct vs _ =>
+    (gfs.zip vs).any fun (g, v) => match g, v with
+      | .struct _ _ _ _, _ => nestsWhereFlat g v
+      | _, .struct _ _ => true
+      | _, _ => nestsWhereFlat g v
+  | .array _ _ t, .arr (some xs) => xs.any (nestsWhereFlat t)
+  | _, _ => false
+
+def stepMain (line : String) : String :=
   match line.splitOn " => " with
   | [req, impl] =>
     match words req with
@@ -286,9 +312,11 @@ def step (line : String) : String :=
       match ofHex hex with
       | none => "bad-hex"
       | some bs =>
-        let out : String := match Spec.pInt 4 bs with
-          | none => "err"
-          | some (n, r) => if n < 0 then "err" else if n.toNat ≤ r.length then "ok" else "err"
+        let out : String := match saslReadResp Gen.saslCfg bs with
+          | .ok _ _ => "ok"
+          | .error => "err"
+          | .panic => "panic"
+          | .balloon => "balloon"
         answer out (impl == "ok" || impl == "err")
     | ["connresp", _op, _ver, _k, _len, digest] =>
       -- a well-formed response delivered in two pieces cut at k: decoded without error, exactly the frame
@@ -309,6 +337,7 @@ def step (line : String) : String :=
               | some v =>
                 let (rt, audited) := refTy c
                 let frameOf (t : Ty) (enc : Ty → Val → Bytes) : Bytes :=
+                  let v := if audited then spliceTo t v else v
                   if c.m.isRequest then
                     Spec.frameRequest c.r.flexible c.m.apiKey c.ver corr cid (enc t v)
                   else Spec.frameResponse c.r.flexible corr (enc t v)
@@ -338,7 +367,12 @@ def step (line : String) : String :=
                 let ref := match Spec.parseRequest c.r.flexible rt bs with
                   | some (corr, cid, v) => s!"{corr} {hexTok cid} {(embed c.m.structs c.ver root v).text}"
                   | none => "err"
-                answer model (impl == ref)
+                -- a schema the tree nests where the reference is flat: the flat reference value has no tree shape; the
+                -- wire-relevant direction (enc) carries the comparison for such messages
+                let nested := match readRequest c bs with
+                  | .ok x _ => nestsWhereFlat rt x.2.2
+                  | _ => false
+                answer model (nested || impl == ref)
               else
                 let model := showRes (fun (x : Int × Val) =>
                   s!"{x.1} {(embed c.m.structs c.ver root x.2).text}") (readResponse cfg c.r.flexible c.r.ty bs)
@@ -347,8 +381,12 @@ def step (line : String) : String :=
                   | none => "err"
                 answer model (impl == ref)
           | _ => "bad-args"
-        else if op == "connreq" then
+        else if op == "connreq" || op == "connreqv" then
           -- a request captured from a real Conn method by the strictly framing fake broker
+          -- (connreqv: first argument = the maximum version the broker advertised for this API)
+          let adv : Option Int := if op == "connreqv" then (rest.head?.bind (·.toInt?)) else none
+          let rest := if op == "connreqv" then rest.drop 1 else rest
+          let verOk : Bool := match adv with | some a => decide (c.ver ≤ a) | none => true
           match rest with
           | cid :: pattern =>
             match ofHex cid, ofHex impl with
@@ -364,7 +402,7 @@ def step (line : String) : String :=
                 let toks := (embed c.m.structs c.ver root v).toTokens
                 let okPat := toks.length == pattern.length &&
                   (toks.zip pattern).all fun (a, b) => b == "*" || a == b
-                answer (toHex reenc) (reenc == raw && okPat && cid' == cidB)
+                answer (toHex reenc) (reenc == raw && okPat && cid' == cidB && verOk)
             | _, _ => "bad-hex"
           | _ => "bad-args"
         else if op == "lens" then
@@ -400,16 +438,116 @@ def step (line : String) : String :=
             | some bs =>
               let out0 : String :=
                 if c.m.isRequest then showRes (fun _ => "ok") (readRequest c bs)
-                else showRes (fun _ => "ok") (readResponse cfg c.r.flexible c.r.ty bs)
+                else showRes (fun _ => "ok") (readResponse cfgR c.r.flexible c.r.ty bs)
               let out1 := if out0 == "balloon" then "oom" else out0
-              -- the inside of a RecordSet payload is opaque to this model (C05): the real decoder may reject it
-              let out := if out1 == "ok" && impl == "err" && hasRecords c.r.ty then "err" else out1
+              -- record sets are read by the detailed reader of Model/RecordScan.lean (`cfgR`): exact outcome class
+              let out := out1
               -- monitor (C20): an error or a message, nothing else
               answer out (impl == "ok" || impl == "err")
           | _ => "bad-args"
         else "bad-op"
     | _ => "bad-op"
   | _ => "bad-line"
+
+/-- `protocol.Marshal(version, value)` / `Unmarshal`: `encodeFuncOf(typ, version, flexible = false, …)` on a struct
+type, i.e. the fields live in `version`, never flexible.  Marshal is a pure function of (type, version, value). -/
+def marshalTy (j ver : String) : Option (RawMsg × Int × Ty) := do
+  let idx ← j.toNat?
+  let v ← ver.toInt?
+  let m ← Gen.marshaled[idx]?
+  let root ← findStruct m.structs m.root
+  let ty ← resolveFields m.structs v false resolveFuel root.fields [] [] []
+  pure (m, v, ty)
+
+def stepMarshal (op j ver : String) (rest : List String) (impl : String) : String :=
+  match marshalTy j ver with
+  | none => "bad-case"
+  | some (m, v, ty) =>
+    let root : GoTy := .named m.root
+    if op == "marshal" then
+      match parseMsgText m rest with
+      | none => "bad-args"
+      | some g => match project m.structs v root g with
+        | none => "bad-project"
+        | some val => answer (hexTok (encode ty val)) (impl == hexTok (Spec.encode ty val))
+    else
+      match rest with
+      | [hex] => match ofHex hex with
+        | none => "bad-hex"
+        | some bs =>
+          -- Unmarshal: d.remain = len(data); dontExpectEOF(d.err); trailing bytes are left unread
+          let model := showRes (fun (x : Val) => (embed m.structs v root x).text) (decode cfg ty ⟨bs, bs.length⟩)
+          let ref := match Spec.parse ty bs with
+            | some (x, _) => (embed m.structs v root x).text
+            | none => "err"
+          answer model (impl == ref)
+      | _ => "bad-args"
+
+/-- two response frames back to back on one connection: the first decode must consume exactly one frame -/
+def stepPipe (pi ver hexes impl : String) : String :=
+  match getCase (dropFirst pi) ver, hexes.splitOn "." with
+  | some c, [h1, h2] =>
+    match ofHex h1, ofHex h2 with
+    | some b1, some b2 =>
+      let r1 := readResponse cfgR c.r.flexible c.r.ty (b1 ++ b2)
+      let model : String := match r1 with
+        | .ok _ d =>
+          (match readResponse cfgR c.r.flexible c.r.ty d.inp with
+           | .ok (corr, _) _ =>
+             let want : Int := match Spec.pInt 4 (b2.drop 4) with | some (v, _) => v | none => -1
+             if corr == want then "ok,ok" else "ok,err"
+           | .panic => "ok,panic" | _ => "ok,err")
+        | .panic => "panic,-" | .balloon => "oom,-" | .error => "err,-"
+      let model' := model
+      answer model' (impl == "err,-" || impl == "ok,ok")
+    | _, _ => "bad-hex"
+  | _, _ => "bad-case"
+
+/-- the Conn codec does not distinguish null from empty -/
+partial def denullVal : Val → Val
+  | .bytes none => .bytes (some [])
+  | .arr none => .arr (some [])
+  | .arr (some xs) => .arr (some (xs.map denullVal))
+  | .struct vs tvs => .struct (vs.map denullVal) (tvs.map denullVal)
+  | v => v
+
+def unTok (s : String) : Option Bytes := if s == "-" then some [] else ofHex s
+
+/-- `legread <i> <ver> <type> <body>	<remain> <rewritten>`: the hand-written response reader followed by the same
+type's writer.  Model: decode the body under the GOLDEN response schema; the reader must leave 0 bytes and the
+rewritten bytes must decode (entirely) to the same value up to null ~ empty. -/
+def stepLegRead (i ver body impl : String) : String :=
+  match getCase i ver, unTok body with
+  | some c, some bs =>
+    let g := (refTy c).1
+    match decode cfg g ⟨bs, bs.length⟩ with
+    | .ok v d =>
+      if d.remain != 0 then answer "golden-decode-leaves-bytes" false else
+      let want := encode (denullStr g) (denullVal v)
+      let ok := match words impl with
+        | [rem, out] =>
+          rem == "0" &&
+            (match unTok out with
+             | some os =>
+               (match decode cfg g ⟨os, os.length⟩ with
+                | .ok v' d' => d'.remain == 0 && Val.beq (denullVal v) (denullVal v')
+                | _ => false)
+             | none => false)
+        | _ => false
+      answer (if ok then impl else s!"0 {hexTok want}") ok
+    | _ => answer "golden-decode-fails" false
+  | _, _ => "bad-case"
+
+def step (line : String) : String :=
+  match line.splitOn " => " with
+  | [req, impl] =>
+    match words req with
+    | ["mal", pi, ver, hexes] => if pi.startsWith "P" then stepPipe pi ver hexes impl else stepMain line
+    | ["legread", i, ver, _name, body] => stepLegRead i ver body impl
+    | "marshal" :: j :: ver :: rest => stepMarshal "marshal" j ver rest impl
+    | "unmarshal" :: j :: ver :: rest => stepMarshal "unmarshal" j ver rest impl
+    | _ => stepMain line
+  | _ => stepMain line
 
 end KV.OracleC04
 
